@@ -312,6 +312,9 @@ pub fn families(tier: Tier) -> Vec<(Family, Vec<GameMode>)> {
     v.push((Family { n: 3, g: 2, scale: 37.5, origin: o, layouts: single(PathType::LINEAR, 3) }, any.clone()));
     v.push((Family { n: 4, g: 1, scale: 37.5, origin: o, layouts: single(PathType::PERFECT_CURVE, 4) }, any.clone()));
     v.push((Family { n: 2, g: 2, scale: 37.5, origin: o, layouts: single(PathType::PERFECT_CURVE, 2) }, any.clone()));
+    // a leading run of control points without a type is a straight polyline (hand-built paths, `PathControlPoint::new`)
+    v.push((Family { n: 3, g: 2, scale: 37.5, origin: o, layouts: vec![vec![None, None, None]] }, both.clone()));
+    v.push((Family { n: 4, g: 1, scale: 40.0, origin: o, layouts: vec![vec![None, None, Some(PathType::BEZIER), None], vec![None, Some(PathType::CATMULL), None, None]] }, both.clone()));
     // two segments sharing a joint
     v.push((Family { n: 4, g: 1, scale: 40.0, origin: o, layouts: two_seg(4) }, both.clone()));
     if t {
